@@ -411,7 +411,8 @@ void h_chrInFirstWord(void) { const char *a; (void)chrInFirstWord(a, nondet_char
         kb.job("probe.%d" % pi, "h_probe_%d" % pi, kind="bounded", props=["C33"], flags=["--sat-solver", "minisat2"], unwind=len(a) + 8, unwindset=["Token_Match.4:4"],
                defines=["NOCONTRACT", "H_PROBE_%d" % pi], timeout=(900 if ctx.tier == "thorough" else 400),
                note="pattern word %s on a token spelled like it with one character replaced or appended; type/flags/varId symbolic" % a)
-    kb.assumptions += ["token invariant (assumed, established by Token::tokType(t)/update_property_info which are not verified): fIsName == (type is a name type); varId != 0 => name type; "
+    kb.assumptions += ["token invariant (assumed here; K26 proves the first part for Token::tokType(t) and checks the table part for Token::update_property_info, later retyping passes stay unverified): "
+                       "fIsName == (type is a name type); varId != 0 => name type; "
                        "for every spelling in the match compiler's tokTypes table the token has one of the listed types; token strings are non-empty and contain no NUL or space",
                        "varid > 0 when the pattern is evaluated (both sides treat varid 0 as an internal error at different points)",
                        "only one-word patterns (and `W @@`) are compared: the sequencing of several words is covered only through the two-word form",
